@@ -1,14 +1,16 @@
 (* Engine "Push": COMPOSITION.  A push [p] *respects the protocol* w.r.t. an invariant family
    [Inv] when each operation preserves [Inv] provided its CALLER respects the protocol
-   (poll_ready in the running phase, start_send only right after poll_ready = Done,
-   poll_finalize, and -- for [respects_rf] -- also poll_ready between poll_finalize calls, which
-   FlatMap / Flatten / ResolveFutures do to their downstream).  Every combinator is an operator
-   on such pairs: from [respects* downstream] it produces [respects* (combinator downstream)]
+   (poll_ready in the running phase, start_send only right after poll_ready = Done, then only
+   poll_finalize).  Since /repo cca62d2de0e and 5464049ec0b no stage calls anything but
+   poll_finalize on its downstream once finalization has begun, so this one notion suffices
+   (the earlier [respects_rf], "tolerates poll_ready between poll_finalize calls", is gone).
+   Every combinator is an operator
+   on such pairs: from [respects downstream] it produces [respects (combinator downstream)]
    with the reference function composed.  The scripted recorder is the base case, so any
    pipeline built from these stages satisfies the C12 specification toward its final
    downstream, for all scripts. *)
 From Coq Require Import List NArith Bool Arith Lia.
-From HV Require Import Push.Model Push.Model2 Push.PBase Push.POne Push.PFlatMap.
+From HV Require Import Push.Model Push.Historic Push.Model2 Push.PBase Push.POne Push.PFlatMap.
 Import ListNotations.
 
 Set Implicit Arguments.
@@ -19,11 +21,6 @@ Record respects {A} (p : push A) (Inv : phase A -> St p -> Prop) : Prop := mkres
   r_fin : fin_ok p Inv;
   (* readiness may be forgotten *)
   r_weak : forall xs s, Inv (Run xs true) s -> Inv (Run xs false) s }.
-
-(* ... and tolerates poll_ready between poll_finalize calls *)
-Record respects_rf {A} (p : push A) (Inv : phase A -> St p -> Prop) : Prop := mkrespects_rf {
-  rf_base : respects p Inv;
-  rf_ready : forall xs s, Inv (Fing xs) s -> Inv (Fing xs) (snd (ready p s)) }.
 
 Definition pmap {A B} (f : list A -> list B) (ph : phase A) : phase B :=
   match ph with Run xs b => Run (f xs) b | Fing xs => Fing (f xs) | Fini xs => Fini (f xs) end.
@@ -52,9 +49,9 @@ Section RecBase.
   Definition RecInv : phase B -> ds B -> Prop :=
     Inv1 (rec_push B) (@lg B) (fun _ => []) (fun xs : list B => xs).
 
-  Lemma rec_respects_rf : respects_rf (rec_push B) RecInv.
+  Lemma rec_respects : respects (rec_push B) RecInv.
   Proof.
-    split; [split|].
+    split.
     - intros xs b s [W [F [S R]]]. unfold RecInv, Inv1. cbn [ready rec_push St]. rewrite rec_ready_lg.
       cbn [wf sent rdy]. rewrite fs_rdy, (finstarted_false_findone _ F), W. cbn [negb andb].
       repeat split; auto. destruct (fst (rec_ready s)); auto; discriminate.
@@ -70,8 +67,6 @@ Section RecBase.
       destruct (fst (rec_fin s)); cbn [wf sent]; rewrite ?fs_fin, ?fd_fin, ?F, ?W, ?app_nil_r;
         cbn [negb andb orb]; repeat split; auto.
     - intros xs s [W [F [S R]]]. unfold RecInv, Inv1. repeat split; auto; discriminate.
-    - intros xs s [W [F [S R]]]. unfold RecInv, Inv1. cbn [ready rec_push St]. rewrite rec_ready_lg.
-      cbn [wf sent]. rewrite fs_rdy, fd_rdy, F, W. cbn [negb andb]. repeat split; auto.
   Qed.
 
   (* what RecInv says in the terms of C12's specification *)
@@ -116,18 +111,13 @@ Section SLStage.
     - intros xs s H. exact (Hw _ _ H).
   Qed.
 
-  Lemma sl_respects_rf : respects_rf p Inv -> respects_rf sl_stage SLInv.
-  Proof.
-    intros [Hb Hrf]. split; [apply sl_respects; auto|].
-    intros xs s H. exact (Hrf _ _ H).
-  Qed.
 End SLStage.
 
 (* ------------------------------------------------------------------ flat_map / flatten over any downstream *)
 
 Section FMStage.
   Context {A B : Type} (p : push B) (Inv : phase B -> St p -> Prop) (g : A -> list B).
-  Hypothesis HP : respects_rf p Inv.
+  Hypothesis HP : respects p Inv.
 
   Definition FMSInv (ph : phase A) (st : fm_st p) : Prop :=
     match ph with
@@ -145,7 +135,7 @@ Section FMStage.
                                         (ok = true -> buf = None)
       end.
   Proof.
-    destruct HP as [[Hr Hs Hf Hw] Hrf].
+    destruct HP as [Hr Hs Hf Hw].
     induction it as [|nxt it IH]; intros item ys b0 s H; cbn [fm_drain].
     - pose proof (Hr _ _ _ H) as H1. destruct (ready p s) as [r s1]. cbn [fst snd] in H1. destruct r.
       + destruct (Hs _ item _ H1) as [s2 [E H2]]. rewrite E. exists (ys ++ [item]), false.
@@ -167,7 +157,7 @@ Section FMStage.
                                    (r = true -> fst st' = None /\ b1 = true)
       end.
   Proof.
-    destruct HP as [[Hr Hs Hf Hw] Hrf].
+    destruct HP as [Hr Hs Hf Hw].
     intros [buf s] ys b0 X E H. cbn [fst snd] in *. unfold fm_ready. cbn [fst snd].
     destruct buf as [[it item]|].
     - pose proof (fms_drain it item H) as Q. destruct (fm_drain p it item s) as [[buf' ok] s1].
@@ -180,14 +170,13 @@ Section FMStage.
       exists ys, r. repeat split; auto.
   Qed.
 
-  Lemma fms_respects_rf : respects_rf (flat_map_push p g) FMSInv.
+  Lemma fms_respects : respects (flat_map_push p g) FMSInv.
   Proof.
-    pose proof HP as HP'. destruct HP' as [[Hr Hs Hf Hw] Hrf].
-    assert (RDY : ready_ok (flat_map_push p g) FMSInv).
-    { intros xs b st [ys [b0 [E [I R]]]]. cbn [ready flat_map_push].
+    pose proof HP as HP'. destruct HP' as [Hr Hs Hf Hw].
+    split.
+    - intros xs b st [ys [b0 [E [I R]]]]. cbn [ready flat_map_push].
       pose proof (fms_ready_run st E I) as Q. destruct (fm_ready st) as [r st']. cbn [fst snd FMSInv].
-      destruct Q as [ys' [b1 [E1 [I1 R1]]]]. exists ys', b1. repeat split; auto; apply R1; auto. }
-    split; [split|]; auto.
+      destruct Q as [ys' [b1 [E1 [I1 R1]]]]. exists ys', b1. repeat split; auto; apply R1; auto.
     - intros xs a [buf s] [ys [b0 [E [I R]]]]. destruct (R eq_refl) as [N1 N2]. cbn [fst snd] in *. subst buf b0.
       cbn [send flat_map_push]. unfold fm_send. cbn [fst snd pendb] in *. rewrite app_nil_r in E. subst ys.
       destruct (g a) as [|b0 it0] eqn:G; eexists; (split; [reflexivity|]); cbn [FMSInv fst snd pendb];
@@ -197,54 +186,52 @@ Section FMStage.
       assert (CASES : (exists ys b0, ys ++ pendb (fst st) = flat_map g xs /\ Inv (Run ys b0) (snd st)) \/
                       (fst st = None /\ Inv (Fing (flat_map g xs)) (snd st))).
       { destruct H as [[H|H]|[b [ys [b0 [E [I _]]]]]]; [left; exact H|right; exact H|left; eauto]. }
-      destruct CASES as [[ys [b0 [E I]]]|[N I]].
-      + pose proof (fms_ready_run st E I) as Q. destruct (fm_ready st) as [r st1].
+      destruct st as [buf s]. cbn [fst snd] in *. destruct buf as [bi|].
+      + (* buffer.is_some(): drain, then finalize *)
+        destruct CASES as [[ys [b0 [E I]]]|[N I]]; [|discriminate]. unfold fm_fin_drain.
+        pose proof (fms_ready_run (Some bi, s) E I) as Q. destruct (fm_ready (Some bi, s)) as [r st1].
         destruct Q as [ys' [b1 [E1 [I1 R1]]]]. destruct r; cbn [fst snd].
         * destruct (R1 eq_refl) as [N1 N2]. rewrite N1 in *. cbn [pendb] in E1. rewrite app_nil_r in E1. subst ys'.
           pose proof (Hf (flat_map g xs) (snd st1) (or_intror (ex_intro _ b1 I1))) as Q.
           destruct (fin p (snd st1)) as [r2 s2]. cbn [fst snd] in *. destruct r2; cbn [FMSInv fst snd]; auto.
         * cbn [FMSInv]. left. eauto.
-      + destruct st as [buf s]. cbn [fst snd] in *. subst buf. unfold fm_ready. cbn [fst snd].
-        pose proof (Hrf _ _ I) as I1. destruct (ready p s) as [r s1]. cbn [fst snd] in *. destruct r.
-        * pose proof (Hf (flat_map g xs) s1 (or_introl I1)) as Q.
-          destruct (fin p s1) as [r2 s2]. cbn [fst snd] in *. destruct r2; cbn [FMSInv fst snd]; auto.
-        * cbn [FMSInv fst snd]. right. auto.
+      + (* empty buffer: next.poll_finalize directly, whatever phase the downstream is in *)
+        assert (PRE : Inv (Fing (flat_map g xs)) s \/ exists b, Inv (Run (flat_map g xs) b) s).
+        { destruct CASES as [[ys [b0 [E I]]]|[N I]]; [|left; exact I].
+          cbn [pendb] in E. rewrite app_nil_r in E. subst ys. right. eauto. }
+        pose proof (Hf (flat_map g xs) s PRE) as Q. destruct (fin p s) as [r2 s2]. cbn [fst snd] in *.
+        destruct r2; cbn [FMSInv fst snd]; auto.
     - intros xs st [ys [b0 [E [I R]]]]. exists ys, b0. repeat split; auto; discriminate.
-    - intros xs st H. cbn [ready flat_map_push]. destruct H as [[ys [b0 [E I]]]|[N I]].
-      + pose proof (fms_ready_run st E I) as Q. destruct (fm_ready st) as [r st']. cbn [fst snd FMSInv].
-        destruct Q as [ys' [b1 [E1 [I1 R1]]]]. left. eauto.
-      + destruct st as [buf s]. cbn [fst snd] in *. subst buf. unfold fm_ready. cbn [fst snd].
-        pose proof (Hrf _ _ I) as I1. destruct (ready p s) as [r s1]. cbn [fst snd FMSInv] in *. right. auto.
   Qed.
 End FMStage.
 
 (* ------------------------------------------------------------------ instances and a pipeline *)
 
-Lemma map_stage_rf : forall A B (p : push B) Inv (f : A -> B),
-    respects_rf p Inv -> respects_rf (map_push p f) (@SLInv _ _ p Inv (fun a => Some (f a))).
+Lemma map_stage : forall A B (p : push B) Inv (f : A -> B),
+    respects p Inv -> respects (map_push p f) (@SLInv _ _ p Inv (fun a => Some (f a))).
 Proof.
   intros A B p Inv f H.
-  exact (@sl_respects_rf A B p Inv (fun a => Some (f a)) (send (map_push p f)) (fun _ _ => eq_refl) H).
+  exact (@sl_respects A B p Inv (fun a => Some (f a)) (send (map_push p f)) (fun _ _ => eq_refl) H).
 Qed.
 
-Lemma filter_stage_rf : forall A (p : push A) Inv (q : A -> bool),
-    respects_rf p Inv -> respects_rf (filter_push p q) (@SLInv _ _ p Inv (fun a => if q a then Some a else None)).
+Lemma filter_stage : forall A (p : push A) Inv (q : A -> bool),
+    respects p Inv -> respects (filter_push p q) (@SLInv _ _ p Inv (fun a => if q a then Some a else None)).
 Proof.
   intros A p Inv q H.
-  refine (@sl_respects_rf A A p Inv (fun a => if q a then Some a else None) (send (filter_push p q)) _ H).
-  intros a s. cbn. destruct (q a); reflexivity.
+  refine (@sl_respects A A p Inv (fun a => if q a then Some a else None) (send (filter_push p q)) _ H).
+  intros a s. unfold filter_push. cbn [send]. destruct (q a); reflexivity.
 Qed.
 
-Lemma filter_map_stage_rf : forall A B (p : push B) Inv (g : A -> option B),
-    respects_rf p Inv -> respects_rf (filter_map_push p g) (@SLInv _ _ p Inv g).
+Lemma filter_map_stage : forall A B (p : push B) Inv (g : A -> option B),
+    respects p Inv -> respects (filter_map_push p g) (@SLInv _ _ p Inv g).
 Proof.
   intros A B p Inv g H.
-  exact (@sl_respects_rf A B p Inv g (send (filter_map_push p g)) (fun _ _ => eq_refl) H).
+  exact (@sl_respects A B p Inv g (send (filter_map_push p g)) (fun _ _ => eq_refl) H).
 Qed.
 
-Lemma flatten_stage_rf : forall B (p : push B) Inv,
-    respects_rf p Inv -> respects_rf (flatten_push p) (@FMSInv _ _ p Inv (fun l : list B => l)).
-Proof. intros B p Inv H. exact (fms_respects_rf (fun l : list B => l) H). Qed.
+Lemma flatten_stage : forall B (p : push B) Inv,
+    respects p Inv -> respects (flatten_push p) (@FMSInv _ _ p Inv (fun l : list B => l)).
+Proof. intros B p Inv H. exact (fms_respects (fun l : list B => l) H). Qed.
 
 (* map f -> flat_map g -> filter q -> recorder: the pipeline the correspondence check also runs
    (CPipeMFF).  Obtained purely by composing the stage lemmas over the recorder base case. *)
@@ -260,8 +247,8 @@ Theorem pipe_map_flatmap_filter_correct :
     end.
 Proof.
   intros.
-  pose proof (map_stage_rf f (fms_respects_rf g (filter_stage_rf q (@rec_respects_rf C)))) as R.
-  pose proof (@respects_drive _ _ _ (rf_base R) fuel items (None, mkds rs0 fs0 [])) as D.
+  pose proof (map_stage f (fms_respects g (filter_stage q (@rec_respects C)))) as R.
+  pose proof (@respects_drive _ _ _ R fuel items (None, mkds rs0 fs0 [])) as D.
   destruct (drive (map_push (flat_map_push (filter_push (rec_push C) q) g) f) fuel items
                   (None, mkds rs0 fs0 []) []) as [[o tr] s'].
   match type of D with ?P -> _ => assert (I0 : P) end.
@@ -274,13 +261,22 @@ Proof.
   - contradiction.
 Qed.
 
-(* The composition does NOT extend to flat_map over fanout for the strict protocol: FlatMap polls
-   poll_ready between poll_finalize calls, and Fanout forwards poll_ready to a downstream that has
-   already answered Done to poll_finalize (finding pipeline/flat_map-over-fanout/...). *)
-Lemma flat_map_over_fanout_refuted :
-  match drive (flat_map_push (fanout_push (rec_push N) (rec_push N)) (fun x : N => [x; (x + 10)%N])) 20 [1%N]
+(* HISTORY (fixed finding pipeline/flat_map-over-fanout/poll_ready-after-finalize-Done): with the
+   FlatMap::poll_finalize of before /repo cca62d2de0e (Historic.flat_map_old_push), flat_map over
+   fanout polled poll_ready on a downstream that had already answered Done to poll_finalize. *)
+Lemma flat_map_old_over_fanout_refuted :
+  match drive (flat_map_old_push (fanout_push (rec_push N) (rec_push N)) (fun x : N => [x; (x + 10)%N])) 20 [1%N]
               (None, ((false, false), (mkds [] [] [], mkds [] [false] []))) [] with
   | (o, _, s') => o = Finished /\ wf (lg (fst (snd (snd s')))) = false /\
                   lg (fst (snd (snd s'))) = [ERdy true; EFin true; ERdy true; ESend 11%N; ERdy true; ESend 1%N; ERdy true; ERdy true]
+  end.
+Proof. vm_compute. auto. Qed.
+
+(* the same witness on the code as it is now: downstream 0's history ends with its poll_finalize *)
+Lemma flat_map_over_fanout_witness_now :
+  match drive (flat_map_push (fanout_push (rec_push N) (rec_push N)) (fun x : N => [x; (x + 10)%N])) 20 [1%N]
+              (None, ((false, false), (mkds [] [] [], mkds [] [false] []))) [] with
+  | (o, _, s') => o = Finished /\ wf (lg (fst (snd (snd s')))) = true /\ wf (lg (snd (snd (snd s')))) = true /\
+                  lg (fst (snd (snd s'))) = [EFin true; ERdy true; ESend 11%N; ERdy true; ESend 1%N; ERdy true; ERdy true]
   end.
 Proof. vm_compute. auto. Qed.
